@@ -684,7 +684,95 @@ def main():
         if name not in fns:
             raise Unsupported("function %s not found" % name)
         parts.append(tr.function(fns[name]))
+    parts.append(top_level(tr, fns))
     open(out, "w").write("\n\n".join(parts) + "\n")
+
+
+def top_level(tr, fns):
+    """impersonate() itself: which signature is used (raw_signature before raw_label, ValueError when neither is given, the direction of
+    the label lookup), the IPv4 / IPv6 check, and the ORDER in which the three layers are built (it is the order of the random draws).
+    Glue statements are compared literally; the two tests and the direction expression are translated."""
+    if "impersonate" not in fns:
+        raise Unsupported("impersonate not found")
+    f = fns["impersonate"]
+    if ast.unparse(f.args) != ("packet: ScapyPacket, *, mtu: int=1500, extra_hops: int=0, uptime: Optional[int]=None, raw_label: Optional[str]=None, "
+                               "raw_signature: Optional[str]=None, database: Database=OPTIONS.database"):
+        fail(f, "impersonate parameters")
+    body = [x for x in f.body if not (isinstance(x, ast.Expr) and isinstance(x.value, ast.Constant))]
+    if len(body) != 7 or [ast.unparse(x) for x in body[:3]] != ["validate_for_impersonation(packet)", "tcp = packet[ScapyTCP]", "tcp_type = tcp.flags & (TCPFlag.SYN | TCPFlag.ACK)"] \
+            or ast.unparse(body[5]) != "ip = packet[ScapyIPv4] if ScapyIPv4 in packet else packet[ScapyIPv6]":
+        fail(f, "impersonate glue statements")
+    # --- the choice of the signature: a decision tree over `x is [not] None` tests of the two arguments
+    def is_none_test(t):
+        if isinstance(t, ast.Compare) and len(t.ops) == 1 and isinstance(t.ops[0], (ast.Is, ast.IsNot)) and isinstance(t.comparators[0], ast.Constant) \
+                and t.comparators[0].value is None and isinstance(t.left, ast.Name) and t.left.id in ("raw_signature", "raw_label"):
+            return t.left.id, isinstance(t.ops[0], ast.Is)
+        return None
+
+    def tree(stmts):
+        st = stmts[0]
+        if isinstance(st, ast.If) and is_none_test(st.test):
+            name, is_none = is_none_test(st.test)
+            a = tree(list(st.body))
+            b = tree(list(st.orelse) if st.orelse else stmts[1:])
+            if not st.orelse and not isinstance(st.body[-1], ast.Raise):
+                fail(st, "if without else that falls through")
+            some, none = (b, a) if is_none else (a, b)
+            return "(match %s with Some %s_v => %s | None => %s end)" % (name, name, some, none)
+        if isinstance(st, ast.Raise) and isinstance(st.exc, ast.Call) and getattr(st.exc.func, "id", None) == "ValueError" and len(stmts) == 1:
+            return "fail ValueErr"
+        if len(stmts) == 1 and ast.unparse(st) == "signature = TCPSignature.parse(raw_signature)":
+            return "(parse raw_signature_v)"
+        if len(stmts) == 2 and isinstance(st, ast.Assign) and ast.unparse(st.targets[0]) == "direction" and isinstance(st.value, ast.IfExp) \
+                and ast.unparse(stmts[1]) == "signature = database.get_random(raw_label, TCPRecord, direction).signature":
+            ie = st.value
+            names = {"Direction.CLIENT_TO_SERVER": "true", "Direction.SERVER_TO_CLIENT": "false"}
+            if ast.unparse(ie.body) not in names or ast.unparse(ie.orelse) not in names:
+                fail(ie, "direction values")
+            t = ie.test
+            if not (isinstance(t, ast.Compare) and len(t.ops) == 1 and isinstance(t.ops[0], (ast.Eq, ast.NotEq)) and ast.unparse(t.left) == "tcp_type"
+                    and ast.unparse(t.comparators[0]) in ("TCPFlag.SYN", "TCPFlag.SYN | TCPFlag.ACK")):
+                fail(t, "direction test")
+            want = 2 if ast.unparse(t.comparators[0]) == "TCPFlag.SYN" else 18
+            c = "(Z.eqb (Z.land flags 18) (%d))" % want
+            if isinstance(t.ops[0], ast.NotEq):
+                c = "(negb %s)" % c
+            return "(lookup raw_label_v (if %s then %s else %s))" % (c, names[ast.unparse(ie.body)], names[ast.unparse(ie.orelse)])
+        fail(st, "signature selection")
+    sel = tree([body[3]])
+    # --- the version check
+    vc = body[4]
+    if not (isinstance(vc, ast.If) and not vc.orelse and len(vc.body) == 1 and isinstance(vc.body[0], ast.Raise) and isinstance(vc.body[0].exc, ast.Call)
+            and getattr(vc.body[0].exc.func, "id", None) == "ValueError"):
+        fail(vc, "version check shape")
+    env = {"packet": None}
+    saved = dict(ATTRS)
+    ATTRS["packet.version"] = ("(b_ver b)", "Z")
+    try:
+        r = tr.truthy(tr.ex(vc.test, {}), vc.test)
+    finally:
+        ATTRS.clear()
+        ATTRS.update(saved)
+    if r[0]:
+        fail(vc, "version check is not pure")
+    # --- the composition, in evaluation order
+    ret = body[6]
+    chain = []
+    e = ret.value if isinstance(ret, ast.Return) else None
+    while isinstance(e, ast.BinOp) and isinstance(e.op, ast.Div):
+        chain.insert(0, e.right)
+        e = e.left
+    chain.insert(0, e)
+    calls = {"_impersonate_ip(ip, signature, extra_hops)": ("ip", "gen_impersonate_ip s b hops"), "_impersonate_tcp(tcp, signature, mtu, uptime)": ("tcp", "gen_impersonate_tcp s b mtu uptime"),
+             "_impersonate_payload(tcp, signature)": ("pay", "gen_impersonate_payload s b")}
+    got = [ast.unparse(x) if x is not None else "" for x in chain]
+    if sorted(got) != sorted(calls) or got[0] != "_impersonate_ip(ip, signature, extra_hops)" or got[2] != "_impersonate_payload(tcp, signature)":
+        fail(ret, "impersonate must return ip / tcp / payload built by the three helpers")
+    lets = " ".join("let* %s := %s in" % calls[g] for g in got)
+    return ("(* impersonate(): which signature, the IP version check, the three layers in evaluation order *)\n"
+            "Definition gen_select_signature {T S : Type} (parse : T -> M S) (lookup : T -> bool -> M S) (raw_signature raw_label : option T) (flags : Z) : M S :=\n  %s.\n"
+            "Definition gen_impersonate_compose {A : Type} (asm : gen_ip -> gen_tcp -> list Z -> A) (s : tcp_sig) (b : base) (hops mtu : Z) (uptime : option Z) : M A :=\n"
+            "  if %s then fail ValueErr else\n  %s ret (asm ip tcp pay)." % (sel, r[1], lets))
 
 
 if __name__ == "__main__":
